@@ -407,6 +407,7 @@ func pairProperty(t *testing.T, targets [][2]string, quick, thorough int) {
 			rec.Discarded("pairing:excluded shape of open finding " + sig)
 			return
 		}
+		rec.Begin("pairing", c)
 		rec.Report(rt, "pairing", c, runPair(c))
 	})
 }
